@@ -50,7 +50,7 @@ func fuzzFamily(f *testing.F, name string) {
 		}
 		e := entryMap[names[int(in[0])%len(names)]]
 		before := allocated()
-		e.Call(append([]byte{}, in[1:]...)) // a panic is reported by the fuzzer as a crasher
+		e.Call(exact(in[1:])) // a panic is reported by the fuzzer as a crasher
 		if grew := allocated() - before; grew > uint64(64*len(in)+4<<20) {
 			t.Fatalf("alloc: %d bytes allocated for a %d-byte input", grew, len(in))
 		}
